@@ -4,7 +4,7 @@
  - runs ./check <PROP> with PAMS_REPO=<scratch> for each property, records what was reported, removes the worktree."""
 import json, os, shutil, subprocess, sys, tempfile, time
 sid, srcdir, props = sys.argv[1], os.path.abspath(sys.argv[2]), sys.argv[3:]
-V = "/verif"
+V = os.environ.get("VERIF_CODE", "/verif")      # a frozen copy of the machinery may be used so that edits made meanwhile do not leak into a batch
 wt = tempfile.mkdtemp(prefix="pams_seed_")
 os.rmdir(wt)
 def sh(cmd, **kw):
